@@ -27,7 +27,7 @@ void __real_abort(void) __attribute__((noreturn));
 const char *__asan_default_options(void)
 {
     return "halt_on_error=1:abort_on_error=0:exitcode=86:"
-           "allocator_may_return_null=1:detect_stack_use_after_return=1:"
+           "allocator_may_return_null=1:detect_stack_use_after_return=1:max_uar_stack_size_log=16:"
            "detect_leaks=0:handle_abort=0:print_summary=1:"
            "max_malloc_fill_size=256:malloc_fill_byte=190:"
            "quarantine_size_mb=16";
